@@ -374,7 +374,9 @@ def _stateful(osy, rng, res):
     norm Array)"""
     nvec = int(rng.integers(1, 4))
     n = int(rng.integers(3, 7))
-    u1 = gen.draw_unit(rng, gen.draw_family(rng))
+    # (not the dimensionless family: `x *= 0.5` on ONE component of a Vector in percent legitimately relabels that
+    #  component percent**2 - same quantity - and leaves a Vector whose components disagree on the unit)
+    u1 = gen.draw_unit(rng, gen.draw_family(rng, exclude=("dimensionless",)))
     comps = [gen.draw_values(rng, (n,), "float64", small=True, nonzero=True) for _ in range(nvec)]
     v = _vec(osy, [c.copy() for c in comps], u1, "v")
     old = v                  # an older reference to the same Vector
